@@ -52,10 +52,15 @@ def is_sequence_type_restriction(st1: str, st2: str) -> bool:
 
     if not st1 or st1[0] == '{' or not st2 or st2[0] == '{':
         return False
-    elif st2 in ('empty-sequence()', 'none') and \
-            (st1 in ('empty-sequence()', 'none') or st1.endswith(('?', '*'))
-             and not (st1.startswith('function(') and ') as ' in st1)):
-        return True
+    elif st2 in ('empty-sequence()', 'none'):
+        return st1 in ('empty-sequence()', 'none') or st1.endswith(('?', '*')) \
+            and not (st1.startswith('function(') and ') as ' in st1)
+    elif st2.startswith('function(') and ') as ' in st2:
+        # the final occurrence indicator belongs to the return type
+        if st1[-1] in '?+*' and not (st1.startswith('function(') and ') as ' in st1):
+            st1 = st1[:-1]
+        elif st1[-1] in '?+*':
+            st1, st2 = st1 + ' ', st2 + ' '  # compare the function tests as they are
 
     # check occurrences
     if st1[-1] not in '?+*':
@@ -328,10 +333,14 @@ def match_sequence_type(value: Any,
 
         if st == 'node()':
             return True
+        elif node_kind == 'namespace':
+            return st == 'namespace-node()'
         elif not st.startswith(node_kind) or not st.endswith(')'):
             return False
         elif st == f'{node_kind}()':
             return True
+        elif node_kind == 'processing-instruction':
+            return v.name == st[23:-1].strip('"\'')
         elif node_kind == 'document':
             element_test = st[14:-1]
             if not element_test:
